@@ -4,6 +4,7 @@ CONSTANTS
     Loop = "copy"
     Family = "file"
     Tier = "quick"
+    Reporter = "contract"
     EmitOn = TRUE
 INIT Init
 NEXT Next
